@@ -2,6 +2,7 @@ package main
 
 import (
 	"fmt"
+	"sync"
 	"go/constant"
 	"go/types"
 	"sort"
@@ -42,6 +43,7 @@ type Session struct {
 	n        int
 	globals  map[*ssa.Global]*Loc
 	Assumed  map[string]bool // names of assumed contracts / built-ins used (trusted base)
+	covered  sync.Map        // cover groups already shown reachable
 	Inlined  map[string]bool
 }
 
